@@ -46,11 +46,28 @@ pub struct Seed {
 }
 
 pub const VALS: [&str; 10] = ["0", "1", "2^31-1", "2^31", "2^32-1", "field-1", "field+1", "file_len", "file_len-1", "file_len+1"];
+/// the thorough ladder: VALS, then the boundaries of 8- and 16-bit wide sub-fields (low half, high half),
+/// and "rest" = number of bytes that follow the field in the file (the largest size/count x 1 that still fits) and one more
+pub const VALS_T: [&str; 20] = [
+    "0", "1", "2^31-1", "2^31", "2^32-1", "field-1", "field+1", "file_len", "file_len-1", "file_len+1", "2", "255", "256", "2^15", "2^16-1", "2^16", "2^16-1<<16", "2^30", "rest", "rest+1",
+];
 /// value subset of the 2-deviation space
 pub const VALS2: [usize; 6] = [0, 4, 2, 3, 6, 7];
+/// value subset of the 2-deviation space over neighbouring header-level fields (thorough)
+pub const VALS2N: [usize; 8] = [0, 1, 2, 3, 4, 6, 7, 15];
 
-pub fn value(vi: usize, orig: u32, file_len: usize) -> u32 {
+pub fn value(vi: usize, orig: u32, file_len: usize, site_off: usize) -> u32 {
     match vi {
+        10 => 2,
+        11 => 255,
+        12 => 256,
+        13 => 0x8000,
+        14 => 0xFFFF,
+        15 => 0x1_0000,
+        16 => 0xFFFF_0000,
+        17 => 0x4000_0000,
+        18 => file_len.saturating_sub(site_off + 4) as u32,
+        19 => (file_len.saturating_sub(site_off + 4) as u32).wrapping_add(1),
         0 => 0,
         1 => 1,
         2 => 0x7FFF_FFFF,
@@ -73,7 +90,20 @@ pub enum Dev {
     ChunkDup(usize),
     ChunkSwap(usize),
     Field2 { a: usize, va: usize, b: usize, vb: usize },
+    /// thorough: payload of chunk k resized consistently (own size field and the enclosing chunks follow)
+    ChunkResize(usize, usize),
+    /// thorough: two siblings (not adjacent) exchanged
+    ChunkSwap2(usize, usize),
+    /// thorough: two siblings deleted
+    ChunkDel2(usize, usize),
+    /// thorough: bytes appended behind the end of the file
+    Append(usize),
 }
+
+/// consistent payload resizes of a chunk
+pub const RESIZES: [&str; 8] = ["-1", "-2", "-3", "-4", "+1", "+4", "empty", "half"];
+/// trailing data: (fill, length); fill "head" = copy of the first bytes of the file
+pub const APPENDS: [(&str, usize); 8] = [("00", 1), ("00", 4), ("FF", 4), ("00", 8), ("FF", 8), ("00", 4096), ("FF", 4096), ("head", 64)];
 
 pub fn rd32(b: &[u8], o: usize) -> u32 {
     if o + 4 <= b.len() {
@@ -140,7 +170,7 @@ impl Seed {
             Dev::Field { site, val } => {
                 let s = &self.sites[*site];
                 let orig = self.site_value(b, s);
-                let v = value(*val, orig, b.len());
+                let v = value(*val, orig, b.len(), s.off);
                 if v == orig {
                     return None;
                 }
@@ -151,7 +181,7 @@ impl Seed {
             Dev::Field2 { a, va, b: sb, vb } => {
                 let (s1, s2) = (&self.sites[*a], &self.sites[*sb]);
                 let (o1, o2) = (self.site_value(b, s1), self.site_value(b, s2));
-                let (v1, v2) = (value(*va, o1, b.len()), value(*vb, o2, b.len()));
+                let (v1, v2) = (value(*va, o1, b.len(), s1.off), value(*vb, o2, b.len(), s2.off));
                 if v1 == o1 || v2 == o2 {
                     // a pair with an unchanged member is a 1-deviation case, already enumerated
                     return None;
@@ -192,6 +222,72 @@ impl Seed {
                 }
                 Some(out)
             }
+            Dev::ChunkResize(k, mode) => {
+                let c = &self.chunks[*k];
+                let old = c.total - 8;
+                let new = match RESIZES[*mode] {
+                    "-1" => old.checked_sub(1)?,
+                    "-2" => old.checked_sub(2)?,
+                    "-3" => old.checked_sub(3)?,
+                    "-4" => old.checked_sub(4)?,
+                    "+1" => old + 1,
+                    "+4" => old + 4,
+                    "empty" => 0,
+                    _ => old / 2,
+                };
+                if new == old || (RESIZES[*mode] == "half" && old < 10) {
+                    // shrinking a payload of < 10 bytes to its half is one of the -1..-4 / empty cases
+                    return None;
+                }
+                let mut out = Vec::with_capacity(b.len() + 4);
+                out.extend_from_slice(&b[..c.off + 8 + new.min(old)]);
+                out.extend(std::iter::repeat(0u8).take(new.saturating_sub(old)));
+                out.extend_from_slice(&b[c.off + c.total..]);
+                wr32(&mut out, c.off + 4, new as u32);
+                self.fix_parents(&mut out, c.parent, new as i64 - old as i64);
+                Some(out)
+            }
+            Dev::ChunkSwap2(x, y) => {
+                let (c, d) = (&self.chunks[*x], &self.chunks[*y]);
+                if c.parent != d.parent || c.off + c.total > d.off {
+                    return None;
+                }
+                let mut out = Vec::with_capacity(b.len());
+                out.extend_from_slice(&b[..c.off]);
+                out.extend_from_slice(&b[d.off..d.off + d.total]);
+                out.extend_from_slice(&b[c.off + c.total..d.off]);
+                out.extend_from_slice(&b[c.off..c.off + c.total]);
+                out.extend_from_slice(&b[d.off + d.total..]);
+                if out == *b {
+                    return None;
+                }
+                Some(out)
+            }
+            Dev::ChunkDel2(x, y) => {
+                let (c, d) = (&self.chunks[*x], &self.chunks[*y]);
+                if c.parent != d.parent || c.off + c.total > d.off {
+                    return None;
+                }
+                let mut out = Vec::with_capacity(b.len());
+                out.extend_from_slice(&b[..c.off]);
+                out.extend_from_slice(&b[c.off + c.total..d.off]);
+                out.extend_from_slice(&b[d.off + d.total..]);
+                self.fix_parents(&mut out, c.parent, -((c.total + d.total) as i64));
+                Some(out)
+            }
+            Dev::Append(k) => {
+                let (fill, n) = APPENDS[*k];
+                let mut out = b.clone();
+                match fill {
+                    "00" => out.extend(std::iter::repeat(0u8).take(n)),
+                    "FF" => out.extend(std::iter::repeat(0xFFu8).take(n)),
+                    _ => out.extend_from_slice(&b[..n.min(b.len())]),
+                }
+                if out.len() == b.len() {
+                    return None;
+                }
+                Some(out)
+            }
         }
     }
 
@@ -203,11 +299,15 @@ impl Seed {
         match d {
             Dev::None => json!({"kind": "seed"}),
             Dev::Prefix(n) => json!({"kind": "prefix", "len": n, "of": self.bytes.len()}),
-            Dev::Field { site: s, val } => json!({"kind": "field", "site": site(*s), "value": VALS[*val], "orig": self.site_value(&self.bytes, &self.sites[*s])}),
-            Dev::Field2 { a, va, b, vb } => json!({"kind": "field2", "site": site(*a), "value": VALS[*va], "site2": site(*b), "value2": VALS[*vb]}),
+            Dev::Field { site: s, val } => json!({"kind": "field", "site": site(*s), "value": VALS_T[*val], "orig": self.site_value(&self.bytes, &self.sites[*s])}),
+            Dev::Field2 { a, va, b, vb } => json!({"kind": "field2", "site": site(*a), "value": VALS_T[*va], "site2": site(*b), "value2": VALS_T[*vb]}),
             Dev::ChunkDel(k) => json!({"kind": "chunk_delete", "chunk": self.chunk_name(*k)}),
             Dev::ChunkDup(k) => json!({"kind": "chunk_duplicate", "chunk": self.chunk_name(*k)}),
             Dev::ChunkSwap(k) => json!({"kind": "chunk_swap_with_next", "chunk": self.chunk_name(*k)}),
+            Dev::ChunkResize(k, m) => json!({"kind": "chunk_resize", "chunk": self.chunk_name(*k), "payload": RESIZES[*m], "of": self.chunks[*k].total - 8}),
+            Dev::ChunkSwap2(x, y) => json!({"kind": "chunk_swap", "chunk": self.chunk_name(*x), "chunk2": self.chunk_name(*y)}),
+            Dev::ChunkDel2(x, y) => json!({"kind": "chunk_delete2", "chunk": self.chunk_name(*x), "chunk2": self.chunk_name(*y)}),
+            Dev::Append(k) => json!({"kind": "append", "fill": APPENDS[*k].0, "len": APPENDS[*k].1, "to": self.bytes.len()}),
         }
     }
     pub fn chunk_name(&self, k: usize) -> String {
@@ -223,14 +323,12 @@ impl Seed {
 
 // ------------------------------------------------------------------ prefix ladders
 
-/// thorough: every length up to 4 KiB, then every 97th, and the last 64.
+/// thorough: every length (every truncation point of the seed).
 /// quick: every length up to 160, every 11th up to 4 KiB, every 997th beyond, the last 16.
 pub fn prefix_lengths(len: usize, thorough: bool) -> Vec<usize> {
     let mut v = vec![];
     if thorough {
-        v.extend(0..len.min(4096));
-        v.extend((4096..len).step_by(97));
-        v.extend(len.saturating_sub(64)..len);
+        v.extend(0..len);
     } else {
         v.extend(0..len.min(160));
         v.extend((160..len.min(4096)).step_by(11));
@@ -253,6 +351,10 @@ pub struct SeedSpace {
     pub chunk_ops: Vec<Dev>,
     /// header-level site indices of the 2-deviation class (empty in quick)
     pub pair_sites: Vec<usize>,
+    /// thorough: pairs of neighbouring header-level sites that are not both in `pair_sites` (x VALS2N grid)
+    pub near_pairs: Vec<(usize, usize)>,
+    /// thorough: number of trailing-data cases
+    pub appends: usize,
 }
 
 impl SeedSpace {
@@ -265,6 +367,11 @@ impl SeedSpace {
             + (self.field_sites.len() * self.vals.len()) as u64
             + self.chunk_ops.len() as u64
             + self.pairs() * (VALS2.len() * VALS2.len()) as u64
+            + self.near_cases()
+            + self.appends as u64
+    }
+    pub fn near_cases(&self) -> u64 {
+        self.near_pairs.len() as u64 * (VALS2N.len() * VALS2N.len()) as u64
     }
     pub fn dev(&self, mut i: u64) -> Dev {
         if i == 0 {
@@ -288,6 +395,17 @@ impl SeedSpace {
         }
         i -= self.chunk_ops.len() as u64;
         let vv = (VALS2.len() * VALS2.len()) as u64;
+        if i >= self.pairs() * vv {
+            i -= self.pairs() * vv;
+            if i < self.near_cases() {
+                let nn = VALS2N.len() as u64;
+                let (a, b) = self.near_pairs[(i / (nn * nn)) as usize];
+                let vi = i % (nn * nn);
+                return Dev::Field2 { a, va: VALS2N[(vi / nn) as usize], b, vb: VALS2N[(vi % nn) as usize] };
+            }
+            i -= self.near_cases();
+            return Dev::Append(i as usize);
+        }
         let pair = i / vv;
         let vi = i % vv;
         // decode pair index -> (a < b)
